@@ -76,6 +76,7 @@ class Interp:
         s.trace = []          # log of notable events (for evidence)
         s.loop_summaries = {}  # id(node) -> summary dict
         s.call_log = []       # (callee key, args, node) for every package-function call
+        s.last_env = {}       # function key -> local environment at the end of its last interpretation
 
     # ------------------------------------------------------------------ module globals
     def module_globals(s, rel):
@@ -195,6 +196,7 @@ class Interp:
             r = s.exec_block(node.body, fst)
         finally:
             s.depth -= 1
+        s.last_env[fn.key] = fst.env
         val = r[1] if (r and r[0] == "return") else None
         if r and r[0] == "raise": val = Opaque("always raises")
         # fold guarded early returns into a decision tree
@@ -294,6 +296,13 @@ class Interp:
         # a condition already assumed on this path is not forked again
         for c0, p0 in st.assumed:
             if c0 is cond: return run_true(st) if p0 else run_false(st)
+        dec = s.hooks.get("decide")
+        if dec is not None:
+            t = dec(cond)
+            if t is not None:
+                st.assumed.append((cond, bool(t)))
+                _restrict_env(st, cond, bool(t))
+                return run_true(st) if t else run_false(st)
         s1 = st.clone(); s2 = st.clone()
         _restrict_env(s1, cond, True); _restrict_env(s2, cond, False)
         s1.assumed.append((cond, True)); s2.assumed.append((cond, False))
@@ -563,7 +572,10 @@ class Interp:
         return lift2(sym, a, b)
 
     def e_BinOp(s, n, st):
-        return s.binop(n.op, s.eval(n.left, st), s.eval(n.right, st))
+        a = s.eval(n.left, st); b = s.eval(n.right, st)
+        if isinstance(n.op, (ast.Div, ast.FloorDiv, ast.Mod)):
+            st.events.append(("div", b, n, list(st.assumed)))
+        return s.binop(n.op, a, b)
 
     def e_BoolOp(s, n, st):
         vals = [s.eval(v, st) for v in n.values]
